@@ -40,6 +40,7 @@ def build(u):
     for g in ['new', 'set_debug_id', 'add_token', 'has_source_contents', 'set_source_contents', 'take_mapping', 'into_sourcemap']:
         import_method(u, B, IMPL, g, 'builder::SourceMapBuilder::' + g, 'u6_builder.ctr', 'u6_builder', prep=bprep)
     u.spec('strip.rs')
+    u.spec('rewrite_post.rs')
     u.prelude('shim_strip.rs')
     f = u.get_fn(B, 'strip_prefixes', impl=IMPL)
     mono(f, u, 'S', r'AsRef<str>', 'String')
@@ -69,3 +70,6 @@ pub fn verif_str_eq(a: &str, b: &str) -> (r: bool) ensures r == (a@ == b@) { a =
         # R-type-annot: ghost code in the invariant needs the element type before rustc has inferred it
         u.count('R-type-annot', f.rewrite(r'let mut prefixes = vec!\[\];', 'let mut prefixes: Vec<String> = vec![];', expect=1))
     emit_method(u, T, r'SourceMap\b', 'rewrite_with_mapping', 'types::SourceMap::rewrite_with_mapping', prep=prep)
+
+    # the public entry point: the map of rewrite_with_mapping, the mapping dropped
+    emit_method(u, T, r'SourceMap\b', 'rewrite', 'types::SourceMap::rewrite')
